@@ -157,20 +157,25 @@ package bridgesync
 //@   ensures result == stkLen(s)
 
 // the callback handed to the search is the claim decoder (or none): it writes only the calldata-derived fields of claims
+// cbCalls counts the calls of the callback, lastCbFound is its last answer
+//@ ghost var lastCbFound bool
+//@ ghost var cbCalls int
 //@ interface functype:func(github.com/agglayer/aggkit/bridgesync.call)(bool,error)@bridgesync.findCall (c)
-//@   modifies region("bridgesync.Claim.ProofLocalExitRoot"), region("bridgesync.Claim.ProofRollupExitRoot"), region("bridgesync.Claim.MainnetExitRoot"), region("bridgesync.Claim.RollupExitRoot"), region("bridgesync.Claim.DestinationNetwork"), region("bridgesync.Claim.Metadata"), region("bridgesync.Claim.GlobalExitRoot"), region("bridgesync.Claim.FromAddress"), region("bridgesync.Claim.IsMessage")
+//@   modifies region("bridgesync.Claim.ProofLocalExitRoot"), region("bridgesync.Claim.ProofRollupExitRoot"), region("bridgesync.Claim.MainnetExitRoot"), region("bridgesync.Claim.RollupExitRoot"), region("bridgesync.Claim.DestinationNetwork"), region("bridgesync.Claim.Metadata"), region("bridgesync.Claim.GlobalExitRoot"), region("bridgesync.Claim.FromAddress"), region("bridgesync.Claim.IsMessage"), lastCbFound, cbCalls
+//@   ensures cbCalls == old(cbCalls) + 1 && lastCbFound == (result0 && result1 == nil)
 //@ func findCall
 //@   props C20
 //@   requires logger != nil
-//@   modifies region("bridgesync.Claim.ProofLocalExitRoot"), region("bridgesync.Claim.ProofRollupExitRoot"), region("bridgesync.Claim.MainnetExitRoot"), region("bridgesync.Claim.RollupExitRoot"), region("bridgesync.Claim.DestinationNetwork"), region("bridgesync.Claim.Metadata"), region("bridgesync.Claim.GlobalExitRoot"), region("bridgesync.Claim.FromAddress"), region("bridgesync.Claim.IsMessage")
+//@   modifies region("bridgesync.Claim.ProofLocalExitRoot"), region("bridgesync.Claim.ProofRollupExitRoot"), region("bridgesync.Claim.MainnetExitRoot"), region("bridgesync.Claim.RollupExitRoot"), region("bridgesync.Claim.DestinationNetwork"), region("bridgesync.Claim.Metadata"), region("bridgesync.Claim.GlobalExitRoot"), region("bridgesync.Claim.FromAddress"), region("bridgesync.Claim.IsMessage"), lastCbFound, cbCalls
+//@   ensures[with-a-callback-only-a-call-it-accepted-is-returned] (callback != nil && result1 == nil) ==> cbCalls > old(cbCalls) && lastCbFound
 //@   ensures[found-is-a-live-call-to-the-bridge] result1 == nil ==> result0 != nil && result0.Err == nil && result0.To == targetAddr
 //@   ensures[error-means-nothing] result1 != nil ==> result0 == nil
 // a call is put on the stack only as a child of a frame that did not revert, and only if it did not revert itself:
 // with the root checked when it is taken off, every frame the search ever looks at has only non-reverted ancestors
 // (the induction over the stack contents is this argument, not a machine-checked invariant)
 //@   assert call:Push:1 currentCall.Err == nil && c.Err == nil
-//@   loop 0 invariant callStack != nil && logger != nil
-//@   loop 1 invariant callStack != nil && logger != nil && 0 <= rangeindex + 1 && rangeindex + 1 <= len(currentCall.Calls)
+//@   loop 0 invariant callStack != nil && logger != nil && cbCalls >= old(cbCalls)
+//@   loop 1 invariant cbCalls >= old(cbCalls) && callStack != nil && logger != nil && 0 <= rangeindex + 1 && rangeindex + 1 <= len(currentCall.Calls)
 
 // ---- reading the events of a block range back (C02, C03, C05: "every exit exactly once and in chain order" rests on
 // this statement's range condition and ordering; assumed semantics A5, text pinned). The table name is the caller's.
